@@ -34,6 +34,7 @@ type c04run struct {
 	// oracle state digests by block id (lazy)
 	odigest      map[int]string
 	completeRoot map[common.Hash]bool
+	pivotLost    bool // the crash-free run lost a fast-sync pivot head to a restart
 	vs           []kernel.Violation
 }
 
@@ -65,6 +66,7 @@ func (c *c04run) add(class string, step int, format string, a ...any) {
 // process died (log.Crit after a failed write).
 func (c *c04run) applyOps(n *Node, probe bool) (alive bool, reorgOps map[int]bool, opRange [][2]int) {
 	reorgOps = map[int]bool{}
+	syncAborted, pivotVolatile := false, false
 	for i, op := range c.p.Ops {
 		c.col.Tick()
 		start := n.Disk.Len()
@@ -81,21 +83,37 @@ func (c *c04run) applyOps(n *Node, probe bool) (alive bool, reorgOps map[int]boo
 				return false, reorgOps, opRange
 			}
 			_ = err // errors are legal after an injected failure or for non-parent-closed (shrunk) plans
+			if n.HeadID() != before {
+				pivotVolatile = false // an executed block followed: the head pointer is on disk
+			}
 		case "headers", "receipts", "pivot":
-			// fast sync: header chain, bodies + receipts, state download + pivot commit
+			// fast sync: header chain, bodies + receipts, state download + pivot commit. A stage
+			// that returned an error (an injected write failure) ends the sync, as it does in the
+			// downloader: later stages of it are not attempted on top of the gap
+			if syncAborted {
+				c.col.Inc("fast_sync_stage_skipped_after_an_error")
+				opRange = append(opRange, [2]int{start, n.Disk.Len()})
+				continue
+			}
 			var died, pan string
+			var err error
 			switch op.Kind {
 			case "headers":
-				_, _, died, pan = n.InsertHeaders(op.Blocks)
+				_, err, died, pan = n.InsertHeaders(op.Blocks)
 			case "receipts":
-				_, _, died, pan = n.InsertReceipts(op.Blocks)
+				_, err, died, pan = n.InsertReceipts(op.Blocks)
 				c.col.Inc("op_insert_receipts")
 			default:
-				var err error
 				_, err, died, pan = n.SyncState(op.Blocks[0], op.Arg)
-				if err == nil && died == "" && pan == "" && probe {
-					c.col.Inc("probe_fast_sync_pivot_committed")
+				if err == nil && died == "" && pan == "" {
+					pivotVolatile = true
+					if probe {
+						c.col.Inc("probe_fast_sync_pivot_committed")
+					}
 				}
+			}
+			if err != nil && n.Disk.FailAt >= 0 {
+				syncAborted = true
 			}
 			if pan != "" {
 				c.add("import-panic", i, "%s panicked: %s", op.Kind, pan)
@@ -105,6 +123,14 @@ func (c *c04run) applyOps(n *Node, probe bool) (alive bool, reorgOps map[int]boo
 				return false, reorgOps, opRange
 			}
 		case "restart":
+			if pivotVolatile && probe {
+				// the pivot became the head in memory only (FastSyncCommitHead writes no head
+				// pointer): this restart reopens at the last executed head, which re-feeding
+				// without restarts cannot reproduce - the convergence clause is not judged
+				c.pivotLost = true
+				c.col.Inc("probe_restart_right_after_pivot_reopened_at_last_executed_head")
+			}
+			pivotVolatile = false
 			if d, pan := n.Stop(); pan != "" {
 				c.add("stop-panic", i, "Stop panicked: %s", pan)
 				return false, reorgOps, opRange
@@ -533,6 +559,10 @@ func (c *c04run) checkImage(img map[string][]byte, w int, tag string, refeed boo
 	}
 	nh := bc.CurrentBlock()
 	ntd := bc.GetTd(nh.Hash(), nh.NumberU64())
+	if c.pivotLost {
+		c.col.Inc("refeed_convergence_not_judged_pivot_head_lost")
+		return
+	}
 	if ntd == nil || ntd.Cmp(c.finalTD) != 0 || (c.uniqueMax && nh.Hash() != c.finalHead) {
 		c.add("refeed-no-convergence", w, "[%s] after re-feeding all deliveries the head is id %d (td %v); the crash-free run ended at id %d (td %v); reopened head was id %d, LastBlock id %d",
 			tag, u.ByHash[nh.Hash()], ntd, u.ByHash[c.finalHead], c.finalTD, hid, pid)
